@@ -165,6 +165,12 @@ func c01Enumerate(tier string, yield func(any)) {
 			}
 		}
 	}
+	// an issuer whose file holds only a key written by a tool that strips the leading zero octets of the scalar
+	for _, curve := range []string{"P-224", "P-256", "P-384", "P-521", "brainpoolP256r1", "brainpoolP512t1"} {
+		for _, prof := range []bool{false, true} {
+			yield(&c01Case{Kind: "origin", Origin: "key-only-minimal-scalar", Profile: prof, Fixture: curve})
+		}
+	}
 	for _, fx := range []string{"P-224-0", "P-384-0", "P-521-0"} {
 		for _, prof := range []bool{false, true} {
 			yield(&c01Case{Kind: "origin", Origin: "stdlib-printable", Profile: prof, Compressed: true, Fixture: fx})
@@ -595,7 +601,15 @@ func c01Origin(x *engine.Ctx, c *c01Case) {
 	child := &refcfg.CertCfg{Path: "child.yaml", Subject: "CN=Child", KeyAlg: "P-256", Issuer: "ca", Profile: prof}
 	x.Nontrivial("origin " + c.Origin + fmt.Sprint(c.Profile, c.Compressed, c.Fixture))
 	var g *GenResult
-	if c.Origin == "gopki-earlier-run" {
+	if c.Origin == "key-only-minimal-scalar" {
+		ci := refx509.CurveByName(c.Fixture)
+		l := (ci.Curve.Params().N.BitLen() + 7) / 8
+		dd := new(big.Int).Sub(new(big.Int).Lsh(big.NewInt(1), uint(8*(l-1))), big.NewInt(0x1234567)) // one leading zero octet
+		keyDER := refx509.BuildECPKCS8(ci, dd, refx509.ECEncoding{OuterOID: true, ScalarLen: len(dd.Bytes())})
+		ca.KeyAlg, ca.Profile = c.Fixture, prof
+		d.Certs = []*refcfg.CertCfg{ca, child}
+		g = Generate(d, func(w *simfs.World) { w.Put("ca.pem", refx509.EncodePem("PRIVATE KEY", keyDER)) }, drive.Default)
+	} else if c.Origin == "gopki-earlier-run" {
 		ca.Profile = prof
 		d.Certs = []*refcfg.CertCfg{ca}
 		g1 := Generate(d, nil, drive.Default)
@@ -640,7 +654,7 @@ func c01Origin(x *engine.Ctx, c *c01Case) {
 	x.Outcome("origin " + c.Origin)
 	// only the child is gopki's work when the issuer is foreign
 	skip := map[string]bool{}
-	if c.Origin != "gopki-earlier-run" {
+	if c.Origin != "gopki-earlier-run" && c.Origin != "key-only-minimal-scalar" {
 		skip["ca"] = true
 	}
 	c01CheckAll(x, d, g, skip)
@@ -650,7 +664,7 @@ func init() {
 	register(&engine.Check{
 		ID:          "C01",
 		Level:       "exploration",
-		Rule:        "(a) every rooted forest on <=3 (quick) / <=4 (thorough) entities x 3 alias/directory layouts x with/without a profile adding subjectKeyIdentifier+authorityKeyIdentifier hash; (b) issuer key algorithm (14) x subject key algorithm (6 representatives quick / 14 thorough) x signature algorithm (8 + omitted) two-tier worlds with fixture keys, the 14 x 9 self-signed roots, and a three-tier chain per issuer kind x 9; (c) 66 one-operation histories (each also with a write error at the 1st/2nd/3rd write of the following run, after which a run that reports success must still leave a verifying chain) and all 2178 ordered two-operation histories on a settled 3-tier chain next to a second root (add a child under the entity / move the entity under the other root / delete artifact / replace by an old key-only file / strip certificate / edit subject / strip key / change key algorithm / issuer key replaced by a request + child edited / issuer key stripped + child edited + generate-changed only / issuer key stripped + child artifact deleted, on each entity, with and without key-id profile) followed by a default run, after which every certificate must verify under its issuer's current certificate; (d) issuer artifact origin {earlier gopki run, foreign certificate with PrintableString / UTF8String non-ASCII / UTF8String for a printable value / IA5String e-mail / multi-valued RDN / TeletexString / PrintableString with & or * / BMPString / NumericString / empty value / mixed string types in one RDN}. Oracle per written certificate: signature verifies with the algorithm its signatureAlgorithm names under the SPKI of the issuer's current certificate file, issuer DN bytes = that certificate's subject DN bytes, hash key ids = SHA-1 of the respective key bits, child AKI = issuer SKI; misfit of algorithm and signing key => run fails and no certificate. non-trivial = distinct case executed",
+		Rule:        "(a) every rooted forest on <=3 (quick) / <=4 (thorough) entities x 3 alias/directory layouts x with/without a profile adding subjectKeyIdentifier+authorityKeyIdentifier hash; (b) issuer key algorithm (14) x subject key algorithm (6 representatives quick / 14 thorough) x signature algorithm (8 + omitted) two-tier worlds with fixture keys, the 14 x 9 self-signed roots, and a three-tier chain per issuer kind x 9; (c) 66 one-operation histories (each also with a write error at the 1st/2nd/3rd write of the following run, after which a run that reports success must still leave a verifying chain) and all 2178 ordered two-operation histories on a settled 3-tier chain next to a second root (add a child under the entity / move the entity under the other root / delete artifact / replace by an old key-only file / strip certificate / edit subject / strip key / change key algorithm / issuer key replaced by a request + child edited / issuer key stripped + child edited + generate-changed only / issuer key stripped + child artifact deleted, on each entity, with and without key-id profile) followed by a default run, after which every certificate must verify under its issuer's current certificate; (d) issuer artifact origin {earlier gopki run, a key-only file whose scalar is written without its leading zero octet (6 curves), foreign certificate with PrintableString / UTF8String non-ASCII / UTF8String for a printable value / IA5String e-mail / multi-valued RDN / TeletexString / PrintableString with & or * / BMPString / NumericString / empty value / mixed string types in one RDN}. Oracle per written certificate: signature verifies with the algorithm its signatureAlgorithm names under the SPKI of the issuer's current certificate file, issuer DN bytes = that certificate's subject DN bytes, hash key ids = SHA-1 of the respective key bits, child AKI = issuer SKI; misfit of algorithm and signing key => run fails and no certificate. non-trivial = distinct case executed",
 		Bound:       map[string]string{"forest size": "quick<=3 thorough<=4"},
 		Assumptions: []string{"configurations with manipulations are C19's", "Go's crypto/ecdsa, crypto/rsa and the keybase brainpool curve parameters are trusted for verification"},
 		Budget:      budgets(quickBudget, thoroughBudget),
